@@ -256,7 +256,8 @@ def work_random(idx, _chunk, seed, n):
                 c = -c
             src = "%s %s" % (lit(c), render_name(a))
             tb = render_name(b)
-            form = rng.choice(["plain", "mul", "div", "neg", "frac", "pow", "prefixed", "plural", "prod"])
+            form = rng.choice(["plain", "mul", "div", "neg", "frac", "pow", "prefixed", "plural", "prod", "constpow", "constpow",
+                               "constpow2", "divpow", "sum", "diff", "summixed"])
             if form == "mul":
                 tgt = "%d %s" % (rng.randrange(2, 100), tb)
             elif form == "div":
@@ -268,6 +269,27 @@ def work_random(idx, _chunk, seed, n):
             elif form == "pow":
                 src = "%s %s^2" % (lit(c), render_name(a))
                 tgt = "%s^2" % tb
+            elif form == "sum":
+                # constants combined by + / - inside the target: 1 ft + 2 ft, 3 ft - 1 ft
+                tgt = "%d %s + %d %s" % (rng.randrange(1, 9), tb, rng.randrange(1, 9), tb)
+            elif form == "diff":
+                k1 = rng.randrange(3, 12)
+                tgt = "%d %s - %d %s" % (k1, tb, rng.randrange(1, k1), tb)
+            elif form == "summixed":
+                tgt = "%s + %d %s" % (tb, rng.randrange(1, 9), tb)
+            elif form == "constpow":
+                # a constant under an exponent: (10 cm)^2, (3 ft)^-1, (2 in)^3
+                pw = rng.choice([2, 3, -1, -2])
+                src = "%s %s^%d" % (lit(c), render_name(a), pw)
+                tgt = "(%d %s)^%d" % (rng.choice([2, 3, 10, 12]), tb, pw)
+            elif form == "constpow2":
+                pw = rng.choice([2, 3])
+                src = "%s %s^%d" % (lit(c), render_name(a), pw)
+                tgt = "%d^%d %s^%d" % (rng.choice([2, 3, 10]), pw, tb, pw)
+            elif form == "divpow":
+                pw = rng.choice([2, 3])
+                src = "%s %s^%d" % (lit(c), render_name(a), pw)
+                tgt = "(%s/%d)^%d" % (tb, rng.choice([2, 4, 10]), pw)
             elif form == "prefixed" and b.isalpha():
                 tgt = rng.choice(["kilo", "milli", "mega", "micro", "centi"]) + b
             elif form == "plural" and b.isalpha():
